@@ -840,6 +840,9 @@ impl E {
                 }
             }
             E::AliasRef(i) => q(crate::stmt_spec::ITEM_ALIASES[*i as usize % 4]),
+            // a float value is written as a real literal (Rust's Debug form: always with a fraction or an exponent)
+            E::V(VS::F64(b)) if f64::from_bits(*b).is_finite() => format!("({:?})", f64::from_bits(*b)),
+            E::V(VS::F32(b)) if f32::from_bits(*b).is_finite() => format!("({:?})", f32::from_bits(*b) as f64),
             E::V(_) => return None,
             E::Int(i) | E::Const(i) => format!("({i})"),
             E::Text(s) => lex::enc_str(Dialect::Sqlite, s),
